@@ -129,8 +129,22 @@ class error_999_visitor(pyx12.error_visitor.error_visitor):
                 elif 'IEA' in err_str:
                     if elem.ele_pos in iea_ele_err_map:
                         err_codes.append(iea_ele_err_map[elem.ele_pos])
-        # return unique codes
-        return list(set(err_codes))
+        # return unique codes; only the first one is used: keep the order of
+        # detection, reject/suspend codes first (as the 997 does)
+        reject_suspend_codes = set([
+            '004', '005', '007', '010', '011',
+            '012', '013', '014', '015', '016',
+            '017', '018', '022', '023', '024',
+            '025', '026', '027'])
+        uniq_codes = []
+        for err in err_codes:
+            if err in uniq_codes:
+                continue
+            if err in reject_suspend_codes:
+                uniq_codes.insert(0, err)
+            else:
+                uniq_codes.append(err)
+        return uniq_codes
 
     def visit_root_post(self, errh):
         """
